@@ -40,14 +40,17 @@ Definition exd_eqb (a b : exd) : bool :=
 Definition in_exd (x : exd) (l : list exd) : bool := existsb (exd_eqb x) l.
 
 (* an RRULE line split at ';' : rule parts (FREQ=.., INTERVAL=.., BYDAY=.. — their meaning is
-   carried by the structured fields of srec) and EXDATE parts *)
-Inductive tok := TRule | TEx (l : list exd).
-Definition is_ex (t : tok) : bool := match t with TEx _ => true | TRule => false end.
+   carried by the structured fields of srec), the bounds UNTIL=YYYYMMDDTHHMMSSZ, UNTIL=YYYYMMDD
+   (a day number) and COUNT=n — their meaning is read off the line itself (rec_until_t,
+   rec_until_d, rec_count below), so a bound lost or altered by a rewrite of the line changes
+   the series — and EXDATE parts.  To the adapter every part but an EXDATE part is opaque text. *)
+Inductive tok := TRule | TEx (l : list exd) | TUntil (x : exd) | TUntilD (d : Z) | TCount (n : Z).
+Definition is_ex (t : tok) : bool := match t with TEx _ => true | _ => false end.
 
 (* _parse_exdates_from_rrule: re.search finds the FIRST EXDATE part; re.sub(";EXDATE[:=][^;]+")
    deletes EVERY EXDATE part that follows a ';' (i.e. all but one in first position) *)
 Fixpoint first_ex (l : list tok) : list exd :=
-  match l with [] => [] | TEx e :: _ => e | TRule :: r => first_ex r end.
+  match l with [] => [] | TEx e :: _ => e | _ :: r => first_ex r end.
 Definition has_ex (l : list tok) : bool := existsb is_ex l.
 Definition strip_ex (l : list tok) : list tok :=
   match l with [] => [] | t :: r => t :: filter (fun x => negb (is_ex x)) r end.
@@ -90,7 +93,27 @@ Definition span_of (b : bstate) (st : sev) : Z * option Z :=
   else (s_s st, s_e st).
 
 Definition rec_ex (r : srec) : list Z :=
-  map parse_exd (flat_map (fun t => match t with TEx l => l | TRule => [] end) (r_line r) ++ r_extra r).
+  map parse_exd (flat_map (fun t => match t with TEx l => l | _ => [] end) (r_line r) ++ r_extra r).
+
+(* the bounds of a series, read off its RRULE line (the simulation rejects a line with more than
+   one of them, so "the first" is "the" one) *)
+Fixpoint find_tok {A} (f : tok -> option A) (l : list tok) : option A :=
+  match l with [] => None | t :: r => match f t with Some x => Some x | None => find_tok f r end end.
+Definition rec_until_t (r : srec) : option Z :=
+  find_tok (fun t => match t with TUntil x => Some (parse_exd x) | _ => None end) (r_line r).
+Definition rec_until_d (r : srec) : option Z :=
+  find_tok (fun t => match t with TUntilD d => Some d | _ => None end) (r_line r).
+Definition rec_count (r : srec) : option Z :=
+  find_tok (fun t => match t with TCount n => Some n | _ => None end) (r_line r).
+Definition bounded_by (o : option Z) (x : Z) : bool := match o with Some u => x <=? u | None => true end.
+
+(* the days d, d+1, .., d+n-1 on which the rule fires, each with the number of earlier firing
+   days of the list plus k (its 0-based occurrence number when the list starts at the master) *)
+Fixpoint number_on (on : Z -> bool) (d : Z) (n : nat) (k : Z) : list (Z * Z) :=
+  match n with
+  | O => []
+  | S n' => if on d then (d, k) :: number_on on (d + 1) n' (k + 1) else number_on on (d + 1) n' k
+  end.
 
 (* what get_events hands out: a stored event or an instance, with its true instants (w_s, w_e)
    and what is presented (w_k0, w_k1: instants of a timed event, day numbers of an all-day one) *)
@@ -113,26 +136,37 @@ Definition instances (b : bstate) (st : sev) (r : srec) (lo hi : option Z) : lis
              | Some h => h
              | None => (if s_allday st then midnight (bs_zone b) day0 else s_s st) + 800 * DAY
              end in
-  let first := match lo with None => day0 | Some l => Z.max day0 (l / DAY - dur_days - 2) end in
+  let cnt := rec_count r in
+  let until_t := rec_until_t r in
+  let until_d := rec_until_d r in
+  (* COUNT counts the occurrences of the rule from the master on: no skipping ahead to the window *)
+  let first := match lo, cnt with
+               | Some l, None => Z.max day0 (l / DAY - dur_days - 2)
+               | _, _ => day0
+               end in
   let last := hi' / DAY + 2 in
   let mon0 := day0 - (day0 + 3) mod 7 in
   let byday := match r_byday r with [] => [(day0 + 3) mod 7] | l => l end in
   let ex := rec_ex r in
-  flat_map (fun k =>
-    let d := first + Z.of_nat k in
+  let on := fun d =>
     let wd := (d + 3) mod 7 in
-    let on := if r_weekly r then inZ wd byday && (((d - wd - mon0) / 7) mod r_interval r =? 0)
-              else ((d - day0) mod r_interval r =? 0) in
-    if on then
-      let s := if s_allday st then midnight (bs_zone b) d else wall_to_utc z (d * DAY + sod) false in
-      let e := if s_allday st then midnight (bs_zone b) (d + dur)
-               else wall_to_utc z (d * DAY + sod + wdur) false in
+    if r_weekly r then inZ wd byday && (((d - wd - mon0) / 7) mod r_interval r =? 0)
+    else ((d - day0) mod r_interval r =? 0) in
+  flat_map (fun dk =>
+    let d := fst dk in
+    let s := if s_allday st then midnight (bs_zone b) d else wall_to_utc z (d * DAY + sod) false in
+    let e := if s_allday st then midnight (bs_zone b) (d + dur)
+             else wall_to_utc z (d * DAY + sod + wdur) false in
+    (* UNTIL is inclusive: an occurrence starting exactly at UNTIL belongs to the series;
+       COUNT and UNTIL bound the rule BEFORE the exclusions are taken out *)
+    if (match cnt with Some c => snd dk <? c | None => true end) && bounded_by until_d d && bounded_by until_t s
+    then
       if inZ s ex then []
       else if in_window lo (Some hi') s e
            then [mkRow st (match s_id st with Some n => Some (EInst n s) | None => None end) (s_id st)
                        s (Some e) (if s_allday st then d else s) (Some (if s_allday st then d + dur else e))]
            else []
-    else []) (seq 0 (Z.to_nat (last - first + 1))).
+    else []) (number_on on first (Z.to_nat (last - first + 1)) 0).
 
 Definition rows_of_ev (b : bstate) (lo hi : option Z) (st : sev) : list row :=
   match s_rec st with
